@@ -30,6 +30,7 @@ PROPS = {
     "C07": {"streams": [S("stream", 60, 600), S("streamhdr", 1, 2)], "projection": "full", "also_tags": ["C05"]},
     "C08": {"streams": [S("stream", 60, 600), S("streamhdr", 1, 2)], "projection": "full"},
     "C17": {"streams": [S("streamfault", 12, 80)], "projection": "full"},
+    "C19": {"streams": [], "projection": "full", "abi_crosscheck": True},
     "C01": {
         "streams": [S("int", 1500, 10000), S("parse", 1500, 8000), S("table", 800, 4000), S("strtab", 800, 6000),
                     S("ident", 400, 2000), S("notes", 300, 3000), S("sysv", 120, 1000), S("gnu", 120, 1000),
@@ -227,6 +228,18 @@ LEVEL_TEXT["C17"] = {
             "fault-free run of the real code.",
     "note": COMMON_NOTE,
     "technique": "Lean 4 proof of an invariant under arbitrary fault schedules + exhaustive single-fault injection correspondence",
+}
+
+LEVEL_TEXT["C19"] = {
+    "text": "abi.rs, the 16 repr(C) structs and the to_str match arms are translated into Lean tables on every run. Kernel-evaluated "
+            "(decide +kernel) over the whole tables and lifted by proved soundness lemmas: every exported integer constant that the vendored "
+            "reference (glibc 2.36 <elf.h> and LLVM 14 BinaryFormat where they agree, plus documented aliases; 1128 of 1174 names) defines "
+            "has the reference's value and fits its Rust type; every C struct has the ABI's size, field order and offsets; every arm of the "
+            "ten symbolic-name helpers returns exactly the identifier of an exported constant with the matched value; every to_string "
+            "fallback formats the number. The translator is cross-checked against the compiled crate (all constant values, size_of/offset_of!, "
+            "every to_str function over its whole u8/u16 domain and over all constant values, neighbours and random values for u32/i64).",
+    "note": COMMON_NOTE + " The reference tables are vendored by hand (ref/build_reference.py, ref/DROPPED.md); 46 crate constants are in neither header and are not covered.",
+    "technique": "Lean 4 kernel-checked table comparison (translator-generated tables vs vendored reference) + compiled-crate cross-check",
 }
 
 # every property not yet claimed is listed here with the reason; entries disappear as checks land
